@@ -44,7 +44,7 @@ macro_rules! melem_float {
                 (if v == 0.0 && parity { -0.0 } else { v }) as $t
             }
             fn rank(&self, maxrank: i64) -> i64 {
-                if self.is_nan() { return 0; }
+                if <$t>::is_nan(*self) { return 0; }      // the standard library's test, not the library under test's MaybeNan::is_nan
                 float_table(maxrank).iter().position(|&v| (v as $t) == *self).map(|p| p as i64 + 1).unwrap_or(-5)
             }
         }
@@ -177,7 +177,7 @@ impl SElem for f64 {
     const NAME: &'static str = "f64";
     // +-INFV stand for the infinities (logged as +-2^28 so that they stay the extreme values)
     fn mk(v: i64) -> Self { if v == MISSING { f64::NAN } else if v == INFV { f64::INFINITY } else if v == -INFV { f64::NEG_INFINITY } else { v as f64 / 4.0 } }
-    fn sc(&self) -> i64 { if self.is_nan() { MISSING } else if *self == f64::INFINITY { 1 << 28 } else if *self == f64::NEG_INFINITY { -(1 << 28) } else { (self * 1024.0).round() as i64 } }
+    fn sc(&self) -> i64 { if f64::is_nan(*self) { MISSING } else if *self == f64::INFINITY { 1 << 28 } else if *self == f64::NEG_INFINITY { -(1 << 28) } else { (self * 1024.0).round() as i64 } }
 }
 impl SElem for Option<i32> {
     const NAME: &'static str = "opt_i32";
